@@ -3,6 +3,8 @@ use std::mem::MaybeUninit;
 /// Internal data holder, heavily unsage, do not use it directly.
 pub struct RecordMaybeUninit<const CAP: usize> {
     data: [MaybeUninit<u8>; CAP],
+    #[cfg(truc_verif)]
+    verif_shadow: std::cell::UnsafeCell<[u8; CAP]>,
 }
 
 impl<const CAP: usize> RecordMaybeUninit<CAP> {
@@ -10,6 +12,8 @@ impl<const CAP: usize> RecordMaybeUninit<CAP> {
     pub fn new() -> Self {
         Self {
             data: unsafe { std::mem::MaybeUninit::uninit().assume_init() },
+            #[cfg(truc_verif)]
+            verif_shadow: std::cell::UnsafeCell::new([0; CAP]),
         }
     }
 
@@ -20,6 +24,8 @@ impl<const CAP: usize> RecordMaybeUninit<CAP> {
     /// This function should not be called by anything but truc-generated code. It is used to put
     /// data written by [`Self::write`] back in a droppable state.
     pub unsafe fn read<T>(&self, offset: usize) -> T {
+        #[cfg(truc_verif)]
+        self.verif_access::<T>(offset, verif::Access::Read);
         std::ptr::read((self.data.as_ptr().add(offset) as *const u8).cast())
     }
 
@@ -30,6 +36,8 @@ impl<const CAP: usize> RecordMaybeUninit<CAP> {
     /// This function should not be called by anything but truc-generated code which is also
     /// responsible for dropping the data by reading the object (see [`Self::read`]).
     pub unsafe fn write<T>(&mut self, offset: usize, t: T) {
+        #[cfg(truc_verif)]
+        self.verif_access::<T>(offset, verif::Access::Write);
         std::ptr::write((self.data.as_mut_ptr().add(offset) as *mut u8).cast(), t);
     }
 
@@ -39,6 +47,8 @@ impl<const CAP: usize> RecordMaybeUninit<CAP> {
     ///
     /// This function should not be called by anything but truc-generated code.
     pub unsafe fn get<T>(&self, offset: usize) -> &T {
+        #[cfg(truc_verif)]
+        self.verif_access::<T>(offset, verif::Access::Ref);
         &*(self.data.as_ptr().add(offset) as *mut u8).cast()
     }
 
@@ -48,7 +58,86 @@ impl<const CAP: usize> RecordMaybeUninit<CAP> {
     ///
     /// This function should not be called by anything but truc-generated code.
     pub unsafe fn get_mut<T>(&mut self, offset: usize) -> &mut T {
+        #[cfg(truc_verif)]
+        self.verif_access::<T>(offset, verif::Access::Ref);
         &mut *(self.data.as_mut_ptr().add(offset) as *mut u8).cast()
+    }
+}
+
+/// Verification hooks (only with `--cfg truc_verif`): a per-byte shadow of which bytes hold a
+/// live droppable value, checked and updated by the four access primitives.
+#[cfg(truc_verif)]
+mod verif {
+    use super::RecordMaybeUninit;
+
+    #[derive(Clone, Copy, PartialEq, Eq)]
+    pub(super) enum Access {
+        Read,
+        Write,
+        Ref,
+    }
+
+    /// Tag of a droppable type (layout based; 0 is "no live droppable value here").
+    fn tag<T>() -> u8 {
+        (((std::mem::size_of::<T>() as u8) << 3) ^ (std::mem::align_of::<T>() as u8)) | 0x80
+    }
+
+    impl<const CAP: usize> RecordMaybeUninit<CAP> {
+        pub(super) unsafe fn verif_access<T>(&self, offset: usize, access: Access) {
+            let size = std::mem::size_of::<T>();
+            assert!(
+                offset <= CAP && size <= CAP - offset,
+                "C07: access outside the record's capacity"
+            );
+            if access != Access::Write {
+                assert!(
+                    (self.data.as_ptr() as usize + offset) % std::mem::align_of::<T>() == 0,
+                    "C07: reference or typed load not aligned for its type at the record's address"
+                );
+            }
+            let shadow = &mut *self.verif_shadow.get();
+            let droppable = std::mem::needs_drop::<T>();
+            let expected = if droppable && access != Access::Write {
+                tag::<T>()
+            } else {
+                0
+            };
+            let mut i = 0;
+            while i < size {
+                match access {
+                    Access::Write => assert!(
+                        shadow[offset + i] == 0,
+                        "C07: store lands on a value the record still owns"
+                    ),
+                    _ => assert!(
+                        shadow[offset + i] == expected,
+                        "C07: access to storage that does not hold a live value of that type"
+                    ),
+                }
+                if droppable {
+                    shadow[offset + i] = match access {
+                        Access::Read => 0,
+                        Access::Write => tag::<T>(),
+                        Access::Ref => expected,
+                    };
+                }
+                i += 1;
+            }
+        }
+    }
+
+    impl<const CAP: usize> Drop for RecordMaybeUninit<CAP> {
+        fn drop(&mut self) {
+            let shadow = unsafe { &*self.verif_shadow.get() };
+            let mut i = 0;
+            while i < CAP {
+                assert!(
+                    shadow[i] == 0,
+                    "C07: record storage released while it still owns a droppable value"
+                );
+                i += 1;
+            }
+        }
     }
 }
 
